@@ -634,6 +634,112 @@ PROPS["C14"] = {'claimed': False,
  'assumptions': ['histories allowed by the FdlApplication contract (C15)',
                  'bytes 0..255, addresses 0..125, max_retry_limit 1..15 (ParametersBuilder bounds)']}
 
+PROPS["C13"] = {'claimed': True,
+ 'coq': 'Properties/C13.v',
+ 'domains': ['fdl'],
+ 'nontrivial': ['tx:', 'tag:ht:accept', 'tag:reply:', 'tag:gap:reply', 'tag:gap:no-response', 'tag:check:', 'tag:lt:reply'],
+ 'rule': 'cases = corpus (F1 F2 F3 F12 witnesses, API / parameter edge cases) + generated histories: station alone with responders, environment '
+         'rings of 1..3 masters that admit the station, hand-made token traffic (predecessor / stranger / own / invalid addresses), adversarial '
+         'injections (tokens, status requests / replies, SC, data replies, garbage, truncated and corrupted frames, two telegrams at once) at all '
+         'poll timings incl. periods above Tslot/4, PHY busy answers exact / never / late / random, set_offline / set_online in every state, 0..3 '
+         'scripted applications, stable two-master rings over many token visits with small HSA (complete GAP sweeps, late successor inside the GAP, '
+         'GAP replies ready / in-ring / not-ready / slave / wrong source / wrong destination / status != Ok), rings of 3..4 known stations whose '
+         'successor vanishes and returns; every case runs under a wall-clock watchdog (TIMEOUT); non-trivial = polls that transmit, accept a token, '
+         'deliver a reply / time-out or run a GAP branch',
+ 'trusted_base': ['hand model coq/Model/Fdl.v of src/fdl/active.rs (all of it: states, legality assertions, poll_inner branch for branch), on top of '
+                  "Telegram.v / Phy.v / TokenRing.v / Params.v; tied by differential execution poll by poll on this run's histories (all outputs, "
+                  'public getters and the private state through the verif-hooks fingerprint)',
+                  'gen/tr_fdl.py: transition legality tables, have_token / is_in_ring sets, dispatch, retry table and numeric constants regenerated '
+                  'from active.rs',
+                  'harness PHY / scripted applications / scripted environment of harness/src/fdl.rs; monitors of coq/Model/FdlOracle.v (extracted) '
+                  "run on the implementation's transcript"],
+ 'technique': 'Coq theorems about the Gallina model of the FDL active station: one-step theorems from all states and history theorems by induction '
+              'over arbitrary event sequences with an explicit invariant (for arbitrary applications) + differential correspondence poll by poll + '
+              "executable monitor of the property on the implementation's transcript; abstract rotation theorem over visit records",
+ 'level_text': 'PARTIAL: the station-local hold-time rule is proved in full, the ring-wide rotation bound only CONDITIONALLY. Machine-checked (Coq '
+               '8.16.1, closed under the global context) about the Gallina model of src/fdl/active.rs, arbitrary applications. Local, one-step from '
+               'ALL states: C13_hold_rule / C13_hold_rule_poll - in do_use_token and in a whole poll (incl. the time-out path) applications are '
+               'asked for normal telegrams only if now < end_token_hold_time, otherwise only for high-priority telegrams and only if '
+               'first_cycle_done was false; C13_hold_over_passes - hold time over and guaranteed cycle done: nobody is asked, nothing is sent, the '
+               'state becomes PassToken; C13_deadline_as_coded - the deadline is computed once per visit as previous token time + TTR - (Tslot + 100 '
+               'bit if a GAP poll is due). Local, over arbitrary histories (polls at any time with any PHY input, set_online / set_offline, user '
+               'interference) with stated invariants: C13_visit_bounded - in every visit a high-priority-only round happens only after the deadline '
+               'and only if no application was asked before in that visit, normal rounds only before the deadline (so at most one message cycle '
+               'starts after the deadline); C13_one_gap_poll_per_visit - between two visits AwaitStatusResponse is entered (= one GAP request sent) '
+               'at most once, from PassToken. C13_deadline_constant_in_visit - all polls of a visit that ask applications see the same '
+               'end_token_hold_time. Global, conditional: C13_rotation_bound_conditional - for any N and any sequence of visits of a stable ring '
+               'whose visits satisfy visit_ok (= per round exactly the conclusion of C13_hold_rule / C13_visit_bounded, deadline <= previous token '
+               'time + TTR from C13_deadline_as_coded, plus assumed bounds C on a message cycle and O on the hand-over), every rotation takes at '
+               'most TTR + N (C + O) (via the abstract rotation_bound). The model is tied to the crate by the fdl correspondence check and the C13 '
+               'rules of the FdlOracle.v monitor.',
+ 'level_note': 'Trusted: Coq kernel, the regex translators, OCaml extraction + driver, Rust harness. The hand model is validated, not verified, '
+               'against active.rs (differential execution on the explored histories). The rotation bound is a theorem about abstract visit records; '
+               'its hypotheses are discharged for ONE model station only in the sense that hold_ok / deadline_ok restate the conclusions of the '
+               'local theorems; the timing hypotheses (C, O, ring stability) are assumptions about the environment and the poll schedule.',
+ 'partial_gap': 'NOT proved: that the composed N-station timed system (N model stations on a shared medium with a poll schedule) produces visit '
+                'sequences satisfying ring_run and visit_ok - i.e. ring stability, a bound C on one message cycle (slot time, poll latency, peers '
+                'answering or timing out), a bound O on the hand-over (GAP poll, token telegram, retries), and the formal extraction of `visit` '
+                "records from the N station histories (that last_token_time is the token time of the station's previous visit along histories is "
+                'only given one-step by C13_deadline_as_coded). No starvation-freedom statement for stations or applications is proved beyond the '
+                'bound above. The first GAP request of a sweep is not covered by the hold-time reserve (as coded).',
+ 'design_ref': 'DESIGN.md section 4, C13',
+ 'assumptions': ['single station for the local theorems; arbitrary applications, the same number passed to every poll',
+                 'for the rotation bound: a stable ring of N stations whose visits satisfy visit_ok with bounds C (message cycle) and O (hand-over)']}
+
+PROPS["C15"] = {'claimed': True,
+ 'coq': 'Properties/C15.v',
+ 'domains': ['fdl'],
+ 'nontrivial': ['tx:', 'tag:ht:accept', 'tag:reply:', 'tag:gap:reply', 'tag:gap:no-response', 'tag:check:', 'tag:lt:reply'],
+ 'rule': 'cases = corpus (F1 F2 F3 F12 witnesses, API / parameter edge cases) + generated histories: station alone with responders, environment '
+         'rings of 1..3 masters that admit the station, hand-made token traffic (predecessor / stranger / own / invalid addresses), adversarial '
+         'injections (tokens, status requests / replies, SC, data replies, garbage, truncated and corrupted frames, two telegrams at once) at all '
+         'poll timings incl. periods above Tslot/4, PHY busy answers exact / never / late / random, set_offline / set_online in every state, 0..3 '
+         'scripted applications, stable two-master rings over many token visits with small HSA (complete GAP sweeps, late successor inside the GAP, '
+         'GAP replies ready / in-ring / not-ready / slave / wrong source / wrong destination / status != Ok), rings of 3..4 known stations whose '
+         'successor vanishes and returns; every case runs under a wall-clock watchdog (TIMEOUT); non-trivial = polls that transmit, accept a token, '
+         'deliver a reply / time-out or run a GAP branch',
+ 'trusted_base': ['hand model coq/Model/Fdl.v of src/fdl/active.rs (all of it: states, legality assertions, poll_inner branch for branch), on top of '
+                  "Telegram.v / Phy.v / TokenRing.v / Params.v; tied by differential execution poll by poll on this run's histories (all outputs, "
+                  'public getters and the private state through the verif-hooks fingerprint)',
+                  'gen/tr_fdl.py: transition legality tables, have_token / is_in_ring sets, dispatch, retry table and numeric constants regenerated '
+                  'from active.rs',
+                  'harness PHY / scripted applications / scripted environment of harness/src/fdl.rs; monitors of coq/Model/FdlOracle.v (extracted) '
+                  "run on the implementation's transcript"],
+ 'technique': 'Coq theorems about the Gallina model of the FDL active station: one-step theorems from all states and history theorems by induction '
+              'over arbitrary event sequences with an explicit invariant (for arbitrary applications) + differential correspondence poll by poll + '
+              "executable monitor of the property on the implementation's transcript",
+ 'level_text': 'Machine-checked (Coq 8.16.1, closed under the global context) about the Gallina model of src/fdl/active.rs, for ARBITRARY '
+               'applications (any state type, any three callbacks, any number n of them) and ARBITRARY histories of a newly created station: polls '
+               'at any time with any PHY input, set_online / set_offline, arbitrary user changes of the application objects between polls (a history '
+               'ends at a panic, so callbacks need not be total). Proved by one monitor + invariant Inv (C15_inv_init, C15_step_preserves for every '
+               'event from every state satisfying Inv, lift C15_history_monitor) and projected to: C15_contract - an application is asked only in '
+               'polls that begin in UseToken / AwaitDataResponse (have_token states) and while no request is outstanding; receive_reply(da, t) / '
+               'handle_timeout(da) reach an application only while it waits for da and end the waiting, i.e. the per-application log matches '
+               '(tx->None | tx->Some(no reply) | tx->Some(reply da); at most one of receive_reply da t / handle_timeout da)* - exactly one unless '
+               'the station gives up the token while waiting (invalid telegram -> ActiveIdle, or set_offline), the only cases in which a request is '
+               'dropped without callback; C15_expects_reply_by_table - for applications using the TelegramTx they are handed, expects_reply is the '
+               'regenerated req_expects_reply table applied to the request, DA as address; C15_delivered_reply_shape (one poll from ANY state, and '
+               "histories) - a delivered telegram is SC or a response with SA = addressed station and DA = TS; C15_routing - in the station's call "
+               'log every reply / time-out is immediately preceded by the transmit call of the same application with that address; C15_round_robin - '
+               'only the application whose turn it is (= next_application) is called, the turn moves exactly at a decline to (i+1) mod n, nobody is '
+               'asked after n declines in a visit, after n declines the station is in PassToken, and a visit ends in PassToken only after n declines '
+               'or with end_token_hold_time <= now; C15_zero_apps - no application: no callback ever, never AwaitDataResponse, do_use_token passes '
+               'the token without reaching the % 0 of schedule_next_application. Non-vacuity: a concrete sending application run through the model; '
+               'the acceptors reject wrong logs. The model is tied to the crate by the fdl correspondence check (0..3 scripted applications) and the '
+               "C15 monitor of FdlOracle.v on the implementation's transcript.",
+ 'level_note': 'Trusted: Coq kernel, the regex translators, OCaml extraction + driver, Rust harness. The hand model is validated, not verified, '
+               'against active.rs (differential execution poll by poll on the explored histories, incl. application call logs). The theorems are '
+               "about the model; 'exactly one of reply / time-out' of DESIGN.md is false of the code (token given up while waiting) and is stated as "
+               "'at most one, exactly one unless the token is given up', which is what the property text asks. The history theorems assume the "
+               'caller passes the same number of applications to every poll (as poll / poll_multi users do).',
+ 'partial_gap': 'none for the station-local statement of C15. Not covered: liveness (that an application is eventually asked again) - it depends on '
+                "the ring (C01/C13 global); panic-freedom of the application-facing code under total callbacks is C05's subject; the executable "
+                'monitor in FdlOracle.v is not proved equal to the Coq acceptors (it is run on transcripts only; it does not model the reset of '
+                'next_application when an address collision drops the station offline inside a poll)',
+ 'design_ref': 'DESIGN.md section 4, C15',
+ 'assumptions': ['single station; arbitrary applications, arbitrary number of them, the same number passed to every poll',
+                 'applications that use the TelegramTx they are handed (only for C15_expects_reply_by_table)']}
+
 # bus-level layer (N real stations on a harness bus; monitors and their soundness theorems in Properties/BusLevel.v)
 for _pid in ("C01", "C02", "C06", "C13"):
     PROPS[_pid]["domains"] = list(PROPS[_pid]["domains"]) + ["bus"]
